@@ -226,6 +226,50 @@ def run(ctx):
         inner = loops(ga)
         if len(inner) == 2 and inner[0][0] == "self.feature_observers" and inner[1][0].endswith(".features.items()"):
             a = b = inner
+    # ... or from one shared private method that returns the blocks it collected
+    # (per feature type, one entry per component in component order)
+    def builder_source(fi):
+        if fi is None:
+            return None
+        its = [n.iter for n in own_nodes(fi.node) if isinstance(n, ast.For)]
+        its += [g.iter for n in own_nodes(fi.node) if isinstance(n, (ast.ListComp, ast.DictComp, ast.GeneratorExp, ast.SetComp)) for g in n.generators]
+        for it in its:
+            c0 = it
+            if isinstance(c0, ast.Call) and isinstance(c0.func, ast.Attribute) and c0.func.attr in ("items", "values") and not c0.args:
+                c0 = c0.func.value
+            if isinstance(c0, ast.Call) and isinstance(c0.func, ast.Attribute) and isinstance(c0.func.value, ast.Name) and c0.func.value.id == "self" and not c0.args:
+                h = repo.method(comp, c0.func.attr)
+                if h is not None and h.name.startswith("_") and not any(isinstance(y, (ast.Yield, ast.YieldFrom)) for y in ast.walk(h.node)):
+                    return h
+        return None
+
+    ba, bb = builder_source(init_f), builder_source(cols)
+    if ba is not None and ba is bb:
+        inner = loops(ba)
+        rets = [r.value for r in own_nodes(ba.node) if isinstance(r, ast.Return) and r.value is not None]
+        if len(inner) == 2 and inner[0][0] == "self.feature_observers" and inner[1][0].endswith(".features.items()") and len(rets) == 1 and isinstance(rets[0], ast.Name):
+            tbl = rets[0].id
+            keyed = [
+                st for st in own_nodes(ba.node)
+                if isinstance(st, ast.Assign) and isinstance(st.targets[0], ast.Subscript) and isinstance(st.targets[0].value, ast.Subscript)
+                and isinstance(st.targets[0].value.value, ast.Name) and st.targets[0].value.value.id == tbl
+            ]
+            appended = [
+                st for st in own_nodes(ba.node)
+                if isinstance(st, ast.Expr) and isinstance(st.value, ast.Call) and isinstance(st.value.func, ast.Attribute) and st.value.func.attr == "append"
+                and isinstance(st.value.func.value, ast.Subscript) and isinstance(st.value.func.value.value, ast.Name) and st.value.func.value.value.id == tbl
+            ]
+            if keyed:
+                chk.violation(
+                    "R11.a", ba, keyed[0],
+                    f"the blocks of a feature type are kept under a key (`{ast.unparse(keyed[0].targets[0])}`): two components that produce the "
+                    "same key (observers of the same class) overwrite each other, so the composite has fewer columns than the "
+                    "concatenation of its components",
+                    loc=ba.loc(keyed[0]),
+                )
+                return
+            if appended and not keyed:
+                a = b = inner
     # follow a helper when initialize_features delegates the collection
     lc = Lifecycle(ctx)
     if not a:
@@ -263,6 +307,13 @@ def run(ctx):
             raise AnalysisError("composite: concatenation not found")
     else:
         ax = next((k.value for k in conc[0].keywords if k.arg == "axis"), None)
+        if isinstance(ax, ast.Name):
+            # a module-level named constant (`FEATURE_AXIS = 1`, possibly imported from a constants module)
+            for f_ in scope:
+                v_ = f_.module.assigns.get(ax.id)
+                if isinstance(v_, ast.Constant):
+                    ax = v_
+                    break
         if isinstance(ax, ast.Constant) and ax.value == 1:
             chk.ok("R11.a", init_f.qualname, init_f.loc(conc[0]), "np.concatenate(axis=1)")
         else:
@@ -529,8 +580,20 @@ def _guards_of(ctx, lc, cls, m, node, _depth=0):
             for x in own_nodes(g.node):
                 if isinstance(x, ast.Call) and isinstance(x.func, ast.Attribute) and x.func.attr == m.name and isinstance(x.func.value, ast.Name) and x.func.value.id == "self":
                     sites.append((g, x))
+                elif (
+                    isinstance(x, ast.Attribute) and x.attr == m.name and isinstance(x.ctx, ast.Load) and isinstance(x.value, ast.Name) and x.value.id == "self"
+                    and not (isinstance(g.module.parents.get(x), ast.Call) and g.module.parents.get(x).func is x)
+                ):
+                    # the bound method picked as a value (`self.fast if flag else self.slow`, an entry of a
+                    # handler table): it runs only where it is picked
+                    sites.append((g, x))
         if len(sites) == 1:
             out += _guards_of(ctx, lc, cls, sites[0][0], sites[0][1], _depth + 1)
+        elif 1 < len(sites) <= 4:
+            # several call sites: what holds at all of them
+            per_site = [set(_guards_of(ctx, lc, cls, g_, x_, _depth + 1)) for g_, x_ in sites]
+            common = set.intersection(*per_site) if per_site else set()
+            out += sorted(common)
     return out
 
 
